@@ -1,6 +1,7 @@
 package rules
 
 import (
+	"crypto/sha256"
 	"fmt"
 	"math/big"
 	"sort"
@@ -34,6 +35,10 @@ type Expected struct {
 	AveragesUsed map[fat2.PTicker]uint64
 	SnapshotPaid map[factom.FAAddress]uint64
 	SnapshotRan  bool
+	// Impostors: staking records naming a top holder's id but signed by another key (must earn nothing).
+	Impostors []string
+	// OutOfBand: OPR outside the SPR band before 2.0.2 (the block must simply be unrated).
+	OutOfBand bool
 }
 
 func (x *Expected) ev(prop, kind string, a factom.FAAddress, t fat2.PTicker, delta int64, ref string, supply bool) {
@@ -154,6 +159,16 @@ func (m *Model) Step(prev Bal, b *forge.Block, rs RateSource, burnRCD [32]byte) 
 				goto sprDone
 			}
 			if top[a] {
+				// from the signature activation on, the record must be signed by the key of that staker id
+				if h >= e.SprSig && len(ext) >= 3 && len(ext[2]) >= 32 {
+					rcd := append([]byte{0x01}, ext[2][:32]...)
+					h1 := sha256.Sum256(rcd)
+					h2 := sha256.Sum256(h1[:])
+					if factom.FAAddress(h2) != a {
+						x.Impostors = append(x.Impostors, en.Hash.String())
+						continue
+					}
+				}
 				eligible = append(eligible, en)
 			}
 		}
@@ -267,8 +282,8 @@ sprDone:
 					x.Rates["PEG"] = 0
 				}
 			} else {
-				x.Notes = append(x.Notes, "OPR outside the SPR tolerance band before 2.0.2: block unrated (recorded finding: nothing else of the block is applied)")
-				x.Undetermined[factom.FAAddress{}] = "out-of-band-pre-202"
+				x.Notes = append(x.Notes, "OPR outside the SPR tolerance band before 2.0.2: the block is unrated; everything else of the block is applied as usual")
+				x.OutOfBand = true
 			}
 		}
 	}
